@@ -111,7 +111,7 @@ def tokenise(text, blank_only='skip'):
         errors = set()
         if piece.startswith(' '):
             errors.add('1')
-            piece = piece.lstrip(' ')
+            piece = piece.lstrip(' \r\n')      # fixed-width records: blanks, then the line break ("SEG~   \nNEXT")
             if piece == '':
                 if blank_only == 'skip':
                     continue
